@@ -25,17 +25,27 @@
 (* KeepPending = FALSE is the algorithm as it was before the repair of     *)
 (* finding F4 (pending definitions local to one call).                     *)
 (***************************************************************************)
-EXTENDS Structure
+EXTENDS Structure, Json
 CONSTANTS MaxEls,       \* caller-created ids per type
           MaxId,        \* ids per type overall (bounds the definitions explored)
           MaxAsserts,   \* bound on insert/equate calls per behaviour
           KeepPending,  \* TRUE: the delta survives an early return (repaired design)
           RuleStages,   \* the stages the rule functions evaluate: Stages without the implicit inheritance stages
           Members,      \* member relations (declared inside a model): first column is the model object
-          DomRel, CodRel  \* the dom / cod function graphs of the model's morphisms ("" when there is no model)
+          DomRel, CodRel, \* the dom / cod function graphs of the model's morphisms ("" when there is no model)
+          RecordHist,   \* TRUE: keep the call history in `hist`
+          UsePlan,      \* TRUE: the rule functions are the flat rules EXTRACTED from the generated module (Plan),
+                        \* FALSE: the ideal semi-naive plan over RuleStages
+          Plan          \* sequence of [prem |-> seq of [kind, rel, args, age], concl |-> seq of [kind, rel, args]]:
+                        \* one entry per generated rule function, ages as emitted (binding (C))
 
-VARIABLES cnt, rep, tnew, told, new, old, upr, pend, pc, ejd, ref, ch, gens, lastRet, nops
-vars == <<cnt, rep, tnew, told, new, old, upr, pend, pc, ejd, ref, ch, gens, lastRet, nops>>
+VARIABLES cnt, rep, tnew, told, new, old, upr, pend, pc, ejd, ref, ch, gens, lastRet, nops,
+          hist          \* the caller's calls so far (recorded only when RecordHist; hidden from TLC's state
+                        \* identity by VIEW NoHist): lets a counterexample be replayed on the generated code
+vars == <<cnt, rep, tnew, told, new, old, upr, pend, pc, ejd, ref, ch, gens, lastRet, nops, hist>>
+NoHist == <<cnt, rep, tnew, told, new, old, upr, pend, pc, ejd, ref, ch, gens, lastRet, nops>>
+Call(op, ty, rel, args, a, b, stop, id) == [op |-> op, ty |-> ty, rel |-> rel, args |-> args, a |-> a, b |-> b, stop |-> stop, id |-> id]
+Rec(c) == IF RecordHist THEN [hist EXCEPT !.ops = Append(@, c)] ELSE hist
 
 EmptyPend == [tuples |-> {}, eqs |-> {}, defs |-> {}]
 Ids(T) == 0..(cnt[T] - 1)
@@ -53,7 +63,7 @@ Init == /\ cnt = [T \in Types |-> 0] /\ rep = [T \in Types |-> <<>>]
         /\ new = [r \in Rels |-> {}] /\ old = [r \in Rels |-> {}]
         /\ upr = [T \in Types |-> {}] /\ pend = EmptyPend /\ pc = "idle" /\ ejd = TRUE
         /\ ref = EmptyPres /\ ch = [nf |-> NF(EmptyPres), done |-> TRUE] /\ gens = [T \in Types |-> {}]
-        /\ lastRet = "none" /\ nops = 0
+        /\ lastRet = "none" /\ nops = 0 /\ hist = [ops |-> <<>>, nobs |-> 0]
 
 (* ---------------- the caller's calls ---------------- *)
 ApiNew(T) ==
@@ -63,6 +73,7 @@ ApiNew(T) ==
   /\ tnew' = [tnew EXCEPT ![T] = @ \cup {cnt[T]}]
   /\ ref' = [ref EXCEPT !.els[T] = @ \cup {G(cnt[T])}]
   /\ lastRet' = "none"
+  /\ hist' = Rec(Call("new", T, "", <<>>, 0, 0, 0, cnt[T]))
   /\ UNCHANGED <<told, new, old, upr, pend, pc, ejd, ch, gens, nops>>
 
 ApiInsert(r, t) ==
@@ -70,6 +81,7 @@ ApiInsert(r, t) ==
   /\ LET ct == Canon(r, t) IN new' = IF ct \in new[r] \cup old[r] THEN new ELSE [new EXCEPT ![r] = @ \cup {ct}]
   /\ ref' = [ref EXCEPT !.tup = @ \cup {<<r, GT(t)>>}]
   /\ lastRet' = "none" /\ nops' = nops + 1
+  /\ hist' = Rec(Call("insert", "", r, t, 0, 0, 0, 0))
   /\ UNCHANGED <<cnt, rep, tnew, told, old, upr, pend, pc, ejd, ch, gens>>
 
 ApiEquate(T, a, b) ==
@@ -81,6 +93,7 @@ ApiEquate(T, a, b) ==
         /\ upr' = [upr EXCEPT ![T] = @ \cup {pr[2]}]
   /\ ref' = [ref EXCEPT !.eq = @ \cup {<<T, G(a), G(b)>>}]
   /\ lastRet' = "none" /\ nops' = nops + 1
+  /\ hist' = Rec(Call("equate", T, "", <<>>, a, b, 0, 0))
   /\ UNCHANGED <<cnt, new, old, pend, pc, ejd, ch, gens>>
 
 (* ---------------- canonicalize ---------------- *)
@@ -101,6 +114,7 @@ CloseBegin ==
   /\ pc' = "obs0" /\ lastRet' = "none"
   /\ ch' = LET c == ChaseN(ref, 40) IN [nf |-> NF(c.R), done |-> c.done]
   /\ gens' = [T \in Types |-> Ids(T)]
+  /\ hist' = [hist EXCEPT !.nobs = 0]
   /\ UNCHANGED <<cnt, rep, tnew, told, pend, ejd, ref, nops>>
 
 (* ---------------- member relations: own and all copies (recompute_model_indices) ---------------- *)
@@ -130,7 +144,17 @@ AgeSet(at, age) ==
   THEN { <<x>> : x \in (CASE age = "new" -> tnew[at.rel] [] age = "old" -> told[at.rel] [] OTHER -> tnew[at.rel] \cup told[at.rel]) }
   ELSE (CASE age = "new" -> TabNew(at.rel) [] age = "old" -> TabOld(at.rel) [] OTHER -> TabNew(at.rel) \cup TabOld(at.rel))
 PlanAge(i, j) == IF j < i THEN "all" ELSE IF j = i THEN "new" ELSE "old"
-RuleDelta ==
+\* the generated rule functions as extracted: every function joins its premise atoms in the ages it
+\* was emitted with and collects all its conclusions (the implicit single-valuedness rules of
+\* functions are rule functions of their own in the generated code: `functionality_<k>`)
+PlanDelta ==
+  UnionDelta({ LET prem == Plan[k].prem  cs == Plan[k].concl IN
+               IF Len(prem) = 0
+               THEN (IF ejd THEN UnionDelta({ConclOf(cs[c], <<>>) : c \in DOMAIN cs}) ELSE EmptyDelta)
+               ELSE UnionDelta({ UnionDelta({ConclOf(cs[c], a) : c \in DOMAIN cs}) :
+                                 a \in Matches(prem, [j \in DOMAIN prem |-> AgeSet(prem[j], prem[j].age)]) })
+             : k \in DOMAIN Plan })
+IdealDelta ==
   LET stageDelta(k) ==
          LET prem == RuleStages[k].prem IN
          IF Len(prem) = 0 THEN (IF ejd THEN ConclOf(RuleStages[k].concl, <<>>) ELSE EmptyDelta)
@@ -140,6 +164,7 @@ RuleDelta ==
                  eqs |-> UNION { { <<ResT(f), p[1][Len(p[1])], p[2][Len(p[2])]>> :
                         p \in { q \in new[f] \X (new[f] \cup old[f]) : \A i \in 1..(Len(Arity[f]) - 1) : q[1][i] = q[2][i] } } : f \in Funcs }]
   IN UnionDelta({stageDelta(k) : k \in DOMAIN RuleStages} \cup {fdelta})
+RuleDelta == IF UsePlan THEN PlanDelta ELSE IdealDelta
 
 \* classes of roots after merging along eqs
 ClassesAfter(T, eqs) ==
@@ -173,6 +198,7 @@ Iterate ==
                 /\ upr' = [T \in Types |-> {}]
                 /\ pend' = [tuples |-> {}, eqs |-> {}, defs |-> d.defs]
   /\ ejd' = FALSE /\ pc' = "obs"
+  /\ hist' = [hist EXCEPT !.nobs = IF RecordHist THEN @ + 1 ELSE @]
   /\ UNCHANGED <<cnt, ref, ch, gens, lastRet, nops>>
 
 Dirty == ejd \/ (\E r \in Rels : new[r] # {}) \/ (\E T \in Types : tnew[T] # {} \/ upr[T] # {})
@@ -184,11 +210,12 @@ ReturnTrue ==
   \* stores it (repaired design) or loses it
   /\ pend' = IF KeepPending \/ pc = "obs0" THEN pend ELSE EmptyPend
   /\ ref' = Absorb(ref, PubO)
+  /\ hist' = Rec(Call("close_until", "", "", <<>>, 0, 0, hist.nobs, 0))
   /\ UNCHANGED <<cnt, rep, tnew, told, new, old, upr, ejd, ch, gens, nops>>
 
 Continue0 == /\ pc = "obs0" /\ pc' = "run"
              /\ pend' = IF KeepPending THEN pend ELSE EmptyPend      \* `let mut delta = ...`
-             /\ UNCHANGED <<cnt, rep, tnew, told, new, old, upr, ejd, ref, ch, gens, lastRet, nops>>
+             /\ UNCHANGED <<cnt, rep, tnew, told, new, old, upr, ejd, ref, ch, gens, lastRet, nops, hist>>
 
 \* apply pending function definitions one after the other
 RECURSIVE ApplyDefs(_, _)
@@ -208,13 +235,14 @@ ApplyDefs(S, defs) ==
 
 Continue ==
   /\ pc = "obs"
-  /\ IF Dirty THEN pc' = "run" /\ UNCHANGED <<cnt, rep, tnew, new, pend, lastRet, ref>>
+  /\ IF Dirty THEN pc' = "run" /\ UNCHANGED <<cnt, rep, tnew, new, pend, lastRet, ref, hist>>
      ELSE LET S == ApplyDefs([cnt |-> cnt, rep |-> rep, tnew |-> tnew, new |-> new, old |-> old], pend.defs)
               dirty2 == (\E r \in Rels : S.new[r] # {}) \/ (\E T \in Types : S.tnew[T] # {})
           IN /\ cnt' = S.cnt /\ rep' = S.rep /\ tnew' = S.tnew /\ new' = S.new
              /\ pend' = [pend EXCEPT !.defs = {}]
-             /\ IF dirty2 THEN pc' = "run" /\ UNCHANGED <<lastRet, ref>>
+             /\ IF dirty2 THEN pc' = "run" /\ UNCHANGED <<lastRet, ref, hist>>
                 ELSE /\ pc' = "idle" /\ lastRet' = "false"
+                     /\ hist' = Rec(Call("close", "", "", <<>>, 0, 0, 0, 0))
                      /\ ref' = Absorb(ref, [cnt |-> S.cnt, rep |-> S.rep, tup |-> [r \in Rels |-> S.new[r] \cup old[r]]])
   /\ UNCHANGED <<told, old, upr, ejd, ch, gens, nops>>
 
@@ -242,4 +270,8 @@ Disjoint == \A r \in Rels : new[r] \cap old[r] = {}
 NoAllocation == [][HasDefs \/ pc = "idle" \/ cnt' = cnt]_vars
 \* ... and terminates
 Terminates == (pc = "obs0") ~> (pc = "idle")
+\* the same invariants, printing the call history of a violating state for replay on the real code
+Cex(ok) == ok \/ (PrintT(<<"CEX", ToJson([ops |-> hist.ops, pc |-> pc, nobs |-> hist.nobs])>>) /\ FALSE)
+RefinesApiCex == Cex(RefinesApi)
+SoundAtObsCex == Cex(SoundAtObs)
 =============================================================================
